@@ -5,22 +5,39 @@
    gomini keeps bindings in a map: compared as solution-equivalent substitutions (same unifier up to renaming),
    with every earlier binding still present. *)
 From Coq Require Import List NArith ZArith Bool.
-From GMK Require Import Term Unify CorrBase Corr01 Corr02.
+From GMK Require Import Term Unify Reflect GCore CorrBase Corr01 Corr02.
 Import ListNotations.
 
 Fixpoint has_binding (p : N * term) (l : subst) : bool :=
   match l with [] => false | q :: r => pair_eqb p q || has_binding p r end.
 
 Inductive case04 :=
-| CGUnify (u v : term) (s : subst) (nstates : nat) (s' : subst).   (* EqualO(u,v) on state s: number of states written, bindings of the result *)
+| CGUnify (u v : term) (s : subst) (nstates : nat) (s' : subst)    (* EqualO(u,v) on state s: number of states written, bindings of the result *)
+(* the same observation, with the Go values written as reflecttools sees them (Reflect.gval, registered pointers as gvar i):
+   checked against the TRANSCRIBED gomini algorithm GCore.gunify (walk / CastVar / hasCycle / isLeaf / ZipReduce) *)
+| CGCore (x y : gval) (s : gsub) (nstates : nat) (s' : gsub) (u v : term) (ts : subst) (ts' : subst).
+
+Definition check_gunify_terms (u v : term) (s : subst) (n : nat) (s' : subst) : bool :=
+  match unify F01 u v s with
+  | Ok sm => Nat.eqb n 1 && forallb (fun p => has_binding p s') s &&
+             same_unifier (vars u ++ vars v ++ subst_vars s) sm s'
+  | Fail => Nat.eqb n 0
+  | OOF => false
+  end.
 
 Definition check04 (c : case04) : bool :=
   match c with
-  | CGUnify u v s n s' =>
-      match unify F01 u v s with
-      | Ok sm => Nat.eqb n 1 && forallb (fun p => has_binding p s') s &&
-                 same_unifier (vars u ++ vars v ++ subst_vars s) sm s'
-      | Fail => Nat.eqb n 0
-      | OOF => false
+  | CGUnify u v s n s' => check_gunify_terms u v s n s'
+  | CGCore x y s n s' u v ts ts' =>
+      check_gunify_terms u v ts n ts' &&
+      match gunify F01 x y s, tenc x, tenc y, senc s, senc s' with
+      | GROk sm, Some tx, Some ty, Some tss, Some tss' =>
+          match senc sm with
+          | Some tm => Nat.eqb n 1 && forallb (fun p => has_binding p tss') tss &&
+                       same_unifier (vars tx ++ vars ty ++ subst_vars tss) tm tss'
+          | None => false
+          end
+      | GRFail, Some _, Some _, Some _, Some _ => Nat.eqb n 0
+      | _, _, _, _, _ => false
       end
   end.
